@@ -25,6 +25,9 @@ CONSTANTS Sizes,      \* subset of {"empty", "tiny", "Lm1", "L", "Lp1", "big"}
           PathBys,    \* subset of {"position", "keyword"}
           Cassettes,  \* cassette types
           ReplayPaths, \* subset of {"same", "other"}: does the replayed call name the recorded path or another one
+          Twices,     \* subset of BOOLEAN: does the operation pass a *second* file through the same handler at the same
+                      \* path, of the same size but with other bytes (and the same modification time)?  Every interception
+                      \* records the bytes the file has at that moment.
           Pres        \* what is at the replayed path when the replay starts: subset of {"absent", "sameSizeOtherBytes",
                       \* "shorter", "identical"} (inputs only; a restore replaces whatever is there)
 
@@ -35,12 +38,13 @@ Above(size) == size \in {"Lp1", "big"}
 \* the placeholder-length file only exists as the "tiny" size
 ContentOK(size, content) == (content = "placeholderText") <=> (size = "tiny")
 
-Init == /\ \E s \in Sizes, c \in Contents, l \in LimitSrcs, r \in Roles, p \in PathBys, k \in Cassettes, rp \in ReplayPaths, pre \in Pres :
+Init == /\ \E s \in Sizes, c \in Contents, l \in LimitSrcs, r \in Roles, p \in PathBys, k \in Cassettes, rp \in ReplayPaths, pre \in Pres, tw \in Twices :
               /\ ContentOK(s, c)
               /\ (s = "empty" => c = "emptyBytes") /\ (c = "emptyBytes" => s = "empty")
               /\ (r = "output" => rp = "same" /\ pre = "absent")
+              /\ (tw => pre = "absent" /\ rp = "same" /\ p = "position" /\ s \notin {"empty", "big"} /\ c \in {"binary", "placeholderText"})
               /\ cfg = [size |-> s, content |-> c, limitSrc |-> l, role |-> r, pathBy |-> p, cassette |-> k, replayPath |-> rp,
-                        pre |-> pre]
+                        pre |-> pre, twice |-> tw]
         /\ phase = "start" /\ recorded = "" /\ wasRead = FALSE /\ restored = "" /\ restoredAt = ""
 
 Prepare == /\ phase = "start"
